@@ -328,6 +328,18 @@ func (x *Exec) staticCall(st *State, fr *Frame, ce *ast.CallExpr, f *types.Func,
 		lm.run(x, st, fr, ce, recv, args, k)
 		return
 	}
+	if benignOutput[f.FullName()] {
+		// diagnostics (logging, printing to standard output): no effect on the state under proof
+		x.trust("logging and printing calls (log, log/slog, fmt.Print*) have no effect on the program state")
+		var res []Term
+		for i := 0; i < csig.Results().Len(); i++ {
+			r := x.d.fresh("out", x.sortOf(csig.Results().At(i).Type()))
+			r.Ty = csig.Results().At(i).Type()
+			res = append(res, r)
+		}
+		k(st, res)
+		return
+	}
 
 	// interface method
 	if sel != nil {
@@ -405,6 +417,9 @@ func (x *Exec) typeSubst(f *types.Func, ce *ast.CallExpr, recvT types.Type) map[
 func (x *Exec) byContract(st *State, fr *Frame, n ast.Node, pc *ProcContract, osig, csig *types.Signature, recv Term, args []Term,
 	tsub map[string]string, calleePkg string, k func(*State, []Term)) {
 
+	if pc.Trusted {
+		x.trust("TRUSTED CONTRACT (body not verified): " + calleePkg + "." + pc.Key)
+	}
 	env := &CEnv{names: map[string]Term{}, st: st, old: st, tsub: tsub, ttypes: x.lastTypeArgs}
 	x.lastTypeArgs = nil
 	for k2, v := range x.extraNames {
@@ -2009,4 +2024,13 @@ func (x *Exec) builtin(st *State, fr *Frame, ce *ast.CallExpr, name string, k fu
 	default:
 		x.unsupported(ce, "builtin %s", name)
 	}
+}
+
+// benignOutput: diagnostic output functions of the standard library that a harmless edit may add.
+var benignOutput = map[string]bool{
+	"fmt.Print": true, "fmt.Printf": true, "fmt.Println": true, "fmt.Sprint": true, "fmt.Sprintln": true,
+	"log.Print": true, "log.Printf": true, "log.Println": true,
+	"log/slog.Debug": true, "log/slog.Info": true, "log/slog.Warn": true,
+	"log/slog.DebugContext": true, "log/slog.InfoContext": true, "log/slog.WarnContext": true, "log/slog.ErrorContext": true,
+	"log/slog.String": true, "log/slog.Int": true, "log/slog.Any": true,
 }
